@@ -141,10 +141,15 @@ def run(tier: str, seed: int) -> int:
     # wave energy on Nyquist-free states
     for D in (1, 2, 3):
         for N in zoo.grid_sizes(D, tier):
-            for c in (1.0, 0.5, 2.3):
-                L, dt = 2.7, float(rng.choice([0.01, 0.4, 30.0]))
+            # domain extents over fourteen decades (the rotation is orthogonal in the energy coordinates whatever |k| is), long steps, and
+            # states that carry height only (all the energy in the c^2 |grad h|^2 part)
+            for ci, (c, L, dt) in enumerate(((1.0, 2.7, float(rng.choice([0.01, 0.4, 30.0]))), (0.5, 2.7, 0.4), (2.3, 2.7, 30.0),
+                                             (1.0, 1.0e7, 3.0e5), (0.7, 1.0e8, 1.0e7), (1.3, 3.0e-5, 1.0e-6), (1.0, 4.0e3, 50.0))):
                 st = ex.stepper.Wave(D, L, N, dt, speed_of_sound=c)
                 u = zoo.nyquist_free(ex, jnp, zoo.white_noise(rng, 2, D, N, amp=1.0))
+                u = np.array(u)
+                if ci % 2 == 1:
+                    u[1] = 0.0
                 kk = np.asarray(ex.spectral.build_wavenumbers(D, N))
                 kap2 = (2 * np.pi / L) ** 2 * np.sum(kk ** 2, axis=0)
                 wts = np.where((np.indices(wshape(D, N))[-1] == 0) | ((N % 2 == 0) & (np.indices(wshape(D, N))[-1] == N // 2)), 1.0, 2.0)
@@ -152,11 +157,11 @@ def run(tier: str, seed: int) -> int:
                 def energy(x):
                     xh = np.asarray(ex.fft(jnp.asarray(x)))
                     return float(np.sum(wts * (np.abs(xh[1]) ** 2 + c ** 2 * kap2 * np.abs(xh[0]) ** 2)))
-                run_.case(("wave-energy", D, N, c))
+                run_.case(("wave-energy", D, N, c, L))
                 e0 = energy(u)
                 e1 = energy(np.asarray(st(jnp.asarray(u))))
                 if abs(e1 / e0 - 1) > 1e-10:
-                    run_.violation({"kind": "wave-energy", "D": D, "N": N}, {"c": c, "dt": dt, "ratio": e1 / e0})
+                    run_.violation({"kind": "wave-energy", "D": D, "N": N}, {"c": c, "dt": dt, "L": L, "height_only": ci % 2 == 1, "ratio": e1 / e0})
     verdicts = monitor.validate(run_, traces, 100, "norm")
     for (acc, pref), m in zip(verdicts, meta):
         run_.case(("rollout", m["cls"], m["mix"], m["D"], m["N"], m["variant"]))
